@@ -9,7 +9,7 @@ tie:     translate/tr_c02cfg.py (which defect sites are repaired in this tree) +
 search:  every read of every history is judged against the whole-field contents the generator
          wrote (the specification: the value of absolute sample k never depends on the history).
 """
-import sys, os, struct, gzip, bz2, lzma, shutil, json, random, time
+import sys, os, struct, gzip, bz2, lzma, shutil, json, random, time, math
 sys.path.insert(0, os.path.join(os.path.dirname(os.path.abspath(__file__)), "..", "bin"))
 import vlib
 
@@ -1080,6 +1080,7 @@ def gen_recode(rng):
 
 # ---------------------------------------------------------------- every return type, values at the edges of the types
 BOUNDARY_KEY = "C02/return-type/exactly-representable-value-differs-by-return-type"
+REPR_ARG_KEY = "C02/repr/argument-in-an-unsigned-return-type-tests-a-data-bit"
 def f32(x):
     try: return struct.unpack("<f", struct.pack("<f", x))[0]
     except OverflowError: return None
@@ -1126,10 +1127,13 @@ def gen_boundary(rng):
     ops = []
     for _ in range(rng.randint(6, 30)):
         f = rng.choice(fields); s = rng.randint(0, n - 1); k = rng.choice([1, 1, 2, 5, n])
-        ops.append(("g", f, s, k, rng.choice(ALL_TYPES)))
+        # a representation suffix (gd_getdata(3)/dirfile-format(5): .r real part, .i imaginary part, .m modulus, .a argument)
+        # of these real-valued fields, a third of the time
+        fc = f + rng.choice([".r", ".i", ".m", ".m", ".a"]) if rng.random() < 0.35 else f
+        ops.append(("g", fc, s, k, rng.choice(ALL_TYPES)))
         if rng.random() < 0.6:
             # the same samples in other return types, straight away
-            for T in rng.sample(ALL_TYPES, rng.randint(1, 4)): ops.append(("g", f, s, k, T))
+            for T in rng.sample(ALL_TYPES, rng.randint(1, 4)): ops.append(("g", fc, s, k, T))
     case["ops"] = ops
     return case
 
@@ -1146,21 +1150,33 @@ def judge_boundary(case, res):
     bad = []; seen = {}
     for i, (o, (tok, _)) in enumerate(zip(case["ops"], res)):
         if o[0] != "g" or tok[0] != "g": continue
-        f, s, n, T = o[1:5]
+        fc, s, n, T = o[1:5]
+        f, _, rp = fc.partition(".")
         if tok[2] != "0": bad.append((i, "data", "E " + tok[2])); continue
         vals = tok[3:3 + int(tok[1])]
         for j, t in enumerate(vals):
             v, lin = bval(case, f, s + j)
             if v is None: bad.append((i, "no sample %d" % (s + j), t)); break
-            key = (f, T, s + j)
+            key = (fc, T, s + j)
             if seen.setdefault(key, t) != t: bad.append((i, "sample %d = %s as before" % (s + j, seen[key]), t)); break
             # through a LINCOM the value passes through double precision arithmetic
             if lin and not exact_in(v, "f64"): continue
+            if not exact_in(v, T): continue
+            # the representation is taken of the value as held in the return type
+            if rp == "i": v = 0
+            elif rp == "m": v = -v if v < 0 else v
+            elif rp == "a":
+                if T not in FLOAT_TYPES: v = 3 if v < 0 else 0          # (T) of pi / 0
+                else: v = (f32(math.pi) if T in ("f32", "c64") else math.pi) if v < 0 else 0.0
             if not exact_in(v, T): continue
             t0 = t.split(";")[0]
             try: got = int(t0) if T not in FLOAT_TYPES else float(t0)
             except ValueError: got = float(t0)
             if got != v:
+                v0, _ = bval(case, f, s + j)
+                if rp == "a" and T in ("u8", "u16", "u32", "u64") and got == 3 and v0 >= 0 and (int(v0) >> {"u8": 1, "u16": 2, "u32": 4, "u64": 8}[T]) & 1:
+                    # the listed finding: the argument in an unsigned return type tests bit sizeof(type) of the value
+                    bad.append((i, "sample %d = %r (exactly representable in %s)" % (s + j, v, T), t, REPR_ARG_KEY)); break
                 bad.append((i, "sample %d = %r (exactly representable in %s)" % (s + j, v, T), t)); break
     return bad
 
@@ -1775,15 +1791,21 @@ def main():
 
     # ---- 2g. the same value in every return type: values at the edges of the types, all native types, all return types
     nbnd = 200 if not chk.thorough else 4000
-    bnd_bad = None
+    bnd_bad = None; bnd_known = None
     for k in range(nbnd):
         case = gen_boundary(rng)
         dd = os.path.join(work, "bnd"); make_dirfile(dd, case)
         rc1, out, res = run_impl(exe, dd, case)
         evals += len(res)
         b = judge_boundary(case, res) if len(res) == len(case["ops"]) else [(len(res), "an answer", "process died rc=%d: %s" % (rc1, out[-200:].replace("\n", " ")))]
+        kn = [x for x in b if len(x) == 4]; b = [x for x in b if len(x) == 3]
+        if kn and bnd_known is None: bnd_known = (case, kn[0])
         if b and bnd_bad is None: bnd_bad = (case, b[0])
     chk.cov["boundary_histories"] = nbnd
+    if bnd_known:
+        case, (i, exp, got, key) = bnd_known
+        chk.violation(key, "%s: %s returns %s, expected %s" % (key, case["ops"][i], got[:60], exp[:100]),
+                      {"kind": "impl-vs-spec", "case": dict(case, ops=[case["ops"][i]]), "op_index": 0, "expected": exp, "got": got})
     if bnd_bad:
         case, (i, exp, got) = bnd_bad
         found_any = True
